@@ -398,7 +398,7 @@ fn boxed_operands(n: usize, ctx: &Ctx) -> Vec<Limbs> {
         runs(n, &l3(), 2)
     } else {
         // Karatsuba range: boundaries at every limb for two runs of {0,MAX}, plus halves/quarters with generic blocks
-        let mut v = runs(n, &l3(), 2);
+        let mut v = if n > 70 && !th { runs(n, &[0, MAX], 2) } else { runs(n, &l3(), 2) };
         if th && n <= 70 {
             v.extend(runs(n, &l5(), 2));
         }
